@@ -72,7 +72,7 @@ func genCacheCfg(t *rapid.T, forceQuery, forceIter bool) CacheCfg {
 
 func genC08(t *rapid.T) CacheCase {
 	o := worldOpts()
-	w := gen.GenWorld(t, o)
+	w := gen.AnyWorld(t, o)
 	c := CacheCase{World: w, Cfg: genCacheCfg(t, true, false)}
 	c.Cfg.CheckIter, c.Cfg.LOIter, c.Cfg.Shared = false, false, false
 	n := rapid.IntRange(4, 14).Draw(t, "nOps")
